@@ -1,11 +1,187 @@
-/- C07 — executable model (stub; filled in by the property's owner). -/
+/-
+C07 — rank / median / mean filters, template_match, find
+(`_convolve.cpp`: `rank_filter<T>`, `mean_filter<T>`, `template_match<T>`, `find2d<T>`;
+`convolve.py`: the wrappers). Values are exact integers (integer dtypes, or integer-valued floats).
+-/
 import Mahotas.Model.Border
 import Mahotas.Model.DType
 namespace Mahotas.C07
 open Mahotas
 
+/-- kernel position `i` (C order) as an offset from the centre `shape/2` -/
+def offsetOf (bshape : List Nat) (i : Nat) : List Int :=
+  subPos (unravelI bshape i) (centreOf bshape)
+
+/-- the neighbourhood as `filter_iterator(array, Bc, mode, compress=true)` presents it:
+    offsets of the non-zero entries of `Bc`, C order -/
+def footprint (bshape : List Nat) (bc : Array Int) : List (List Int) :=
+  (List.range (shapeSize bshape)).filterMap fun i =>
+    if bc.getD i 0 == 0 then none else some (offsetOf bshape i)
+
+/-! ### samples -/
+
+/-- the samples `rank_filter` / `mean_filter` gather at pixel `p`: in-image samples through
+    `fix_offset`; a flagged sample becomes `cval = 0` in `constant` mode (the wrappers accept no other
+    value) and is dropped in `ignore` mode. -/
+def gather (m : Mode) (f : Img Int) (fp : List (List Int)) (p : List Int) : List Int :=
+  fp.filterMap fun k =>
+    match fixPos m f.shape (addPos p k) with
+    | some q => some (f.getD q 0)
+    | none => if m = .constant then some 0 else none
+
+/-- the samples the statement selects: the neighbourhood placed at `p`, out-of-image positions taken
+    per the border rule (constant: 0, ignore: dropped) -/
+def specSamples (m : Mode) (f : Img Int) (fp : List (List Int)) (p : List Int) : List Int :=
+  fp.filterMap fun k =>
+    match specPos m f.shape (addPos p k) with
+    | some q => some (f.getD q 0)
+    | none => if m = .constant then some 0 else none
+
+/-! ### rank filter -/
+
+/-- `currank`: the rank itself when every sample is present, otherwise rescaled in proportion,
+    `npy_intp(n * rank / double(N2))` (= `⌊n·rank / N2⌋` for all sizes below 2^26). -/
+def curRank (n N2 rank : Nat) : Nat := if n ≠ N2 then n * rank / N2 else rank
+
+def leB (a b : Int) : Bool := decide (a ≤ b)
+
+/-- contract of `std::nth_element(first, first + k, last); first[k]`: the element that would be at
+    index `k` if the range were sorted. `none`: `k` outside the range (the C++ reads a stale slot). -/
+def nthElement (xs : List Int) (k : Nat) : Option Int := (xs.mergeSort leB)[k]?
+
+/-- `rank_filter<T>` at pixel `p`; `none` = nothing defined is written (rank outside `[0, N2)`: early
+    return; no sample at all: stale value). -/
+def rankAt (m : Mode) (f : Img Int) (fp : List (List Int)) (rank : Int) (p : List Int) : Option Int :=
+  if rank < 0 ∨ rank ≥ (fp.length : Int) then none else
+  let s := gather m f fp p
+  nthElement s (curRank s.length fp.length rank.toNat)
+
+/-- specification: `v` is the `k`-th smallest (0-based) of `xs`: fewer than or exactly `k` samples
+    are smaller, more than `k` are smaller or equal. -/
+def IsKthSmallest (xs : List Int) (k : Nat) (v : Int) : Prop :=
+  v ∈ xs ∧ xs.countP (fun x => decide (x < v)) ≤ k ∧ k < xs.countP (fun x => decide (x ≤ v))
+
+/-- executable form of the specification (first sample satisfying `IsKthSmallest`) -/
+def kthSmallest (xs : List Int) (k : Nat) : Option Int :=
+  xs.find? fun v => decide (xs.countP (fun x => decide (x < v)) ≤ k) &&
+    decide (k < xs.countP (fun x => decide (x ≤ v)))
+
+def rankSpecAt (m : Mode) (f : Img Int) (fp : List (List Int)) (rank : Int) (p : List Int) : Option Int :=
+  if rank < 0 ∨ rank ≥ (fp.length : Int) then none else
+  let s := specSamples m f fp p
+  kthSmallest s (curRank s.length fp.length rank.toNat)
+
+/-- `median_filter`: `rank = Bc.sum() // 2` -/
+def medianRank (bc : Array Int) : Int := (bc.toList.foldl (· + ·) 0) / 2
+
+/-! ### mean filter -/
+
+/-- `mean_filter<T>` at pixel `p`: `(sum, n)`; the output is `sum / n` in double -/
+def meanParts (m : Mode) (f : Img Int) (fp : List (List Int)) (p : List Int) : Int × Nat :=
+  let s := gather m f fp p
+  (s.foldl (· + ·) 0, s.length)
+
+def meanSpecParts (m : Mode) (f : Img Int) (fp : List (List Int)) (p : List Int) : Int × Nat :=
+  let s := specSamples m f fp p
+  (s.sum, s.length)
+
+/-! ### template_match -/
+
+/-- `template_match<T>` at pixel `p` (`compress = false`: every template entry takes part; flagged
+    samples are skipped in `constant` and `ignore` alike); `delta = val > tj ? val - tj : tj - val`. -/
+def tmAt (m : Mode) (f : Img Int) (tshape : List Nat) (t : Array Int) (p : List Int) : Int :=
+  (List.range (shapeSize tshape)).foldl (fun diff2 j =>
+    match fixPos m f.shape (addPos p (offsetOf tshape j)) with
+    | some q =>
+      let val := f.getD q 0
+      let tj := t.getD j 0
+      let delta := if val > tj then val - tj else tj - val
+      diff2 + delta * delta
+    | none => diff2) 0
+
+/-- specification: sum of squared differences between the template and the window centred at `p`
+    (centre `shape/2`), over the samples the border rule provides -/
+def tmSpecAt (m : Mode) (f : Img Int) (tshape : List Nat) (t : Array Int) (p : List Int) : Int :=
+  ((List.range (shapeSize tshape)).map fun j =>
+    match specPos m f.shape (addPos p (offsetOf tshape j)) with
+    | some q => (f.getD q 0 - t.getD j 0) ^ 2
+    | none => 0).sum
+
+/-- the whole centred window lies inside the image (where `constant` mode is compared) -/
+def windowInside (shape tshape : List Nat) (p : List Int) : Bool :=
+  let c := centreOf tshape
+  inside shape (subPos p c) &&
+  inside shape (addPos (subPos p c) (tshape.map fun (d : Nat) => (d : Int) - 1))
+
+/-! ### find (2-D exact template search) -/
+
+/-- the comparison loops of `find2d` at top-left corner `(y, x)` -/
+def matchesAt (f t : Img Int) (y x : Nat) : Bool :=
+  match t.shape with
+  | [Nt0, Nt1] =>
+    (List.range Nt0).all fun sy => (List.range Nt1).all fun sx =>
+      f.getD [((y + sy : Nat) : Int), ((x + sx : Nat) : Int)] 0 == t.getD [(sy : Int), (sx : Int)] 0
+  | _ => false
+
+/-- the positions `find2d` marks, in loop order:
+    `for (y = 0; y < N0 && y + Nt0 <= N0; ++y) for (x = 0; x < N1 && x + Nt1 <= N1; ++x)` -/
+def findMarks (f t : Img Int) : List (Nat × Nat) :=
+  match f.shape, t.shape with
+  | [N0, N1], [Nt0, Nt1] =>
+    ((List.range N0).takeWhile fun y => decide (y + Nt0 ≤ N0)).flatMap fun y =>
+      (((List.range N1).takeWhile fun x => decide (x + Nt1 ≤ N1)).filter fun x => matchesAt f t y x).map fun x => (y, x)
+  | _, _ => []
+
+/-- specification: the template occurs in the image with its top-left corner at `(y, x)` -/
+def OccursAt (f t : Img Int) (y x : Nat) : Prop :=
+  ∃ N0 N1 Nt0 Nt1, f.shape = [N0, N1] ∧ t.shape = [Nt0, Nt1] ∧ y + Nt0 ≤ N0 ∧ x + Nt1 ≤ N1 ∧
+    ∀ sy < Nt0, ∀ sx < Nt1,
+      f.getD [((y + sy : Nat) : Int), ((x + sx : Nat) : Int)] 0 = t.getD [(sy : Int), (sx : Int)] 0
+
+/-- executable form of `OccursAt` (used by the driver as the spec) -/
+def occursAtB (f t : Img Int) (y x : Nat) : Bool :=
+  match f.shape, t.shape with
+  | [N0, N1], [Nt0, Nt1] => decide (y + Nt0 ≤ N0) && decide (x + Nt1 ≤ N1) && matchesAt f t y x
+  | _, _ => false
+
+/-! ### driver entry -/
+
+def modeOf (a : Args) : Mode := (Mode.ofCode (a.nat "mode")).getD .reflect
+
+def showMean (parts : List (Int × Nat)) : String :=
+  showFloats (parts.map fun (s, n) => Float.ofInt s / Float.ofNat n)
+
 def handle (a : Args) : String :=
+  let shape := a.nats "shape"
+  let f : Img Int := { shape := shape, data := (a.ints "data").toArray }
+  let m := modeOf a
+  let bshape := a.nats "bshape"
+  let bc := (a.ints "bc").toArray
   match a.str "kind" with
+  | "rank" =>
+    let fp := footprint bshape bc
+    let rank := a.int "rank"
+    let ps := allPos shape
+    s!"spec={showOptInts (ps.map (rankSpecAt m f fp rank))} model={showOptInts (ps.map (rankAt m f fp rank))} n2={fp.length}"
+  | "median" =>
+    let fp := footprint bshape bc
+    let rank := medianRank bc
+    let ps := allPos shape
+    s!"spec={showOptInts (ps.map (rankSpecAt m f fp rank))} model={showOptInts (ps.map (rankAt m f fp rank))} rank={rank}"
+  | "mean" =>
+    let fp := footprint bshape bc
+    let ps := allPos shape
+    let sp := ps.map (meanSpecParts m f fp)
+    s!"sum={showInts (sp.map (·.1))} n={showNats (sp.map (·.2))} model={showMean (ps.map (meanParts m f fp))}"
+  | "tm" =>
+    let ps := allPos shape
+    s!"spec={showInts (ps.map (tmSpecAt m f bshape bc))} model={showInts (ps.map (tmAt m f bshape bc))} obs={showBools (ps.map (windowInside shape bshape))}"
+  | "find" =>
+    let t : Img Int := { shape := bshape, data := bc }
+    let marks := findMarks f t
+    let N1 := shape.getD 1 0
+    let ps := (List.range (shapeSize shape)).map fun i => (i / N1, i % N1)
+    s!"spec={showBools (ps.map fun (y, x) => occursAtB f t y x)} model={showBools (ps.map fun q => marks.contains q)}"
   | k => s!"error=unknown-kind-{k}"
 
 end Mahotas.C07
